@@ -242,6 +242,20 @@ impl Family for Emitter {
 // ---------------------------------------------------------------------------------------------------------------------
 // (T) the binary: program x format x --disable-color x -A list; one event per run for Trace_Emitter
 
+/// `vh emitstate <arguments of slicec>`: compile and finish the way the library offers to (what front ends built on the
+/// library call): CompilationState::emit_diagnostics writes to the real stderr / stdout and says whether there were errors.
+pub fn emitstate(args: &[String]) -> i32 {
+    use clap::Parser;
+    let mut argv = vec!["slicec".to_owned()];
+    argv.extend(args.iter().cloned());
+    let options = match SliceOptions::try_parse_from(&argv) {
+        Ok(o) => o,
+        Err(_) => return 2,
+    };
+    let state = slicec::compile_from_options(&options);
+    if state.emit_diagnostics(&options) { 1 } else { 0 }
+}
+
 #[derive(Default)]
 pub struct EmitBin {
     counter: u64,
@@ -297,7 +311,7 @@ impl Family for EmitBin {
         if gen == "missing" {
             argv.extend(["-G".into(), "./no-such-generator".into()]);
         }
-        let rendered = json!({"argv": argv, "file": text});
+        let rendered = json!({"argv": argv, "file": text, "driver": case["driver"]});
         let key = hash_str(&rendered.to_string());
         // the library on the same input with the same options
         let options = SliceOptions {
@@ -326,10 +340,16 @@ impl Family for EmitBin {
             let _ = std::env::set_current_dir(p);
         }
         let _ = options;
-        let res = crate::fam_driver::run_limited(
-            Command::new(crate::fam_driver::slicec_bin()).args(&argv).current_dir(&dir).env("CLICOLOR_FORCE", "1").env_remove("NO_COLOR"),
-            std::time::Duration::from_secs(20),
-        );
+        let driver = case["driver"].as_str().unwrap_or("binary");
+        let mut cmd = if driver == "library" {
+            // CompilationState::emit_diagnostics in a child process (`vh emitstate <arguments of slicec>`)
+            let mut c = Command::new(std::env::current_exe().unwrap());
+            c.arg("emitstate");
+            c
+        } else {
+            Command::new(crate::fam_driver::slicec_bin())
+        };
+        let res = crate::fam_driver::run_limited(cmd.args(&argv).current_dir(&dir).env("CLICOLOR_FORCE", "1").env_remove("NO_COLOR"), std::time::Duration::from_secs(20));
         let stderr = String::from_utf8_lossy(&res.stderr).to_string();
         let stdout = String::from_utf8_lossy(&res.stdout).to_string();
         let (plain_err, esc_err) = strip_ansi(&stderr);
@@ -364,7 +384,7 @@ impl Family for EmitBin {
         }
         let exit = res.status.and_then(|s| s.code()).map(|c| c as i64).unwrap_or(-1);
         emit_event("emitbin", &json!({
-            "ev": "emit", "prog": prog, "format": format, "disable_color": disable, "allow": allow, "gen": gen,
+            "ev": "emit", "driver": driver, "prog": prog, "format": format, "disable_color": disable, "allow": allow, "gen": gen,
             "lib": lib, "records": records, "json_ok": json_ok, "escapes": esc_err + esc_out,
             "sum_w": sum_w, "sum_e": sum_e, "stdout_other": other, "stderr_other": stderr_other, "exit": exit, "timed_out": res.timed_out,
         }));
